@@ -56,7 +56,14 @@ func main() {
 			runReorder(c, genReorderCase(c.R.Fork()))
 		}
 		for i := 0; i < nEng; i++ {
-			runEngine(c, genEngineCase(c.R.Fork()))
+			switch i % 5 {
+			case 3:
+				runEngine(c, genMergeCase(c.R.Fork()))
+			case 4:
+				runEngine(c, genRangeCase(c.R.Fork()))
+			default:
+				runEngine(c, genEngineCase(c.R.Fork()))
+			}
 		}
 		c.SetExtra("engine_queries", extraQueries)
 		c.SetExtra("engine_distinct_plans_total", extraPlans)
